@@ -133,6 +133,41 @@ pub fn authenticator_ops(seq: &[u64], carrier: Carrier) -> Option<(usize, String
     }
 }
 
+/// A request whose own date is fresh (or an hour old) with a date input of the other carrier as an unsigned bystander.
+pub fn bystander_case(carrier: Carrier, own_fresh: bool, date_header_name: &str, decoy_off: i64, size: usize, server: Instant) -> (Case, String) {
+    let mut plan = e2e::base_plan(carrier);
+    plan.method = "PUT".into();
+    plan.body = vec![b'x'; size];
+    plan.instant = Instant::new(server.secs + if own_fresh { 0 } else { -3600 }, 0);
+    plan.date_text = plan.instant.compact();
+    let decoy_text = Instant::new(server.secs + decoy_off, 0).compact();
+    match carrier {
+        Carrier::Query => plan.headers.push((date_header_name.into(), decoy_text.clone().into_bytes())),
+        Carrier::Header => plan.url_params.push((b"X-Amz-Date".to_vec(), decoy_text.clone().into_bytes())),
+    }
+    e2e::rekey(&mut plan, e2e::SECRET, "us-east-1", "service");
+    (Case { wire: WireReq::from_wire(&build(&plan).wire), cfg: Cfg::basic(server), prov: ProvSpec::standard() }, decoy_text)
+}
+
+pub fn replay_bystander(case: &serde_json::Value) -> i32 {
+    let b = &case["bystander_date"];
+    let carrier = if b["carrier"] == "Query" { Carrier::Query } else { Carrier::Header };
+    let server = Instant::from_civil(2015, 8, 30, 12, 36, 0, 0);
+    let (c, decoy) = bystander_case(carrier, b["own_fresh"].as_bool().unwrap_or(true), b["header"].as_str().unwrap_or("X-Amz-Date"), b["decoy_offset_s"].as_i64().unwrap_or(0), b["body_bytes"].as_u64().unwrap_or(0) as usize, server);
+    let j = e2e::judge(&c);
+    println!("{:?} carrier, bystander date {}, body {} bytes: implementation {}, reference {:?}", carrier, decoy, c.wire.body.len(), j.sut.label(), j.reference.error);
+    match j.disagreement {
+        Some((what, exp, obs)) => {
+            println!("disagreement: {} expected {} observed {}", what, exp, obs);
+            1
+        }
+        None => {
+            println!("agrees");
+            0
+        }
+    }
+}
+
 pub fn replay(case: &serde_json::Value) -> i32 {
     let seq: Vec<u64> = case["authenticator_ops"].as_array().map(|a| a.iter().filter_map(|x| x.as_u64()).collect()).unwrap_or_default();
     let carrier = if case["carrier"] == "Query" { Carrier::Query } else { Carrier::Header };
@@ -375,10 +410,51 @@ pub fn run(ctx: &Ctx) -> Report {
         st = st.merge(part);
     }
 
+    // (4) the date that counts is the carrier's own, whatever the size of the body: fresh requests with a date input of
+    //     the OTHER carrier as an unsigned bystander (an X-Amz-Date / Date header next to query authentication, an
+    //     X-Amz-Date query parameter next to header authentication) that is a day old, a day ahead or fresh, with
+    //     bodies of 0 bytes, 1 MiB + 1, 8 MiB + 1 and 16 MiB + 1 (thorough: 64 MiB + 1) -- accepted; and the stale
+    //     request with a fresh bystander -- refused
+    {
+        let server = servers[0];
+        let sizes: Vec<usize> = if thorough { vec![0, (1 << 20) + 1, (8 << 20) + 1, (16 << 20) + 1, (64 << 20) + 1] } else { vec![0, (1 << 20) + 1, (8 << 20) + 1, (16 << 20) + 1] };
+        let decoys: [i64; 3] = [-86_400, 86_400, 0];
+        let n4 = (sizes.len() * decoys.len() * 2 * 2 * 2) as u64;
+        let base4 = total + 60_000_000;
+        let part = par_sweep(n4, |i, st| {
+            let mut x = i as usize;
+            let carrier = if x % 2 == 0 { Carrier::Query } else { Carrier::Header };
+            x /= 2;
+            let own_fresh = x % 2 == 0;
+            x /= 2;
+            let date_header_name = if x % 2 == 0 { "X-Amz-Date" } else { "Date" };
+            x /= 2;
+            let decoy_off = decoys[x % decoys.len()];
+            x /= decoys.len();
+            let size = sizes[x];
+            let (case, decoy_text) = bystander_case(carrier, own_fresh, date_header_name, decoy_off, size, server);
+            let before = st.violations.len();
+            let j = e2e::judge_into(base4 + i, &case, st);
+            if st.violations.len() > before {
+                if let Some(v) = st.violations.last_mut() {
+                    v.what = format!("bystander-date({:?} carrier, own date {}, bystander {} = {}, body {} bytes):{}", carrier, if own_fresh { "fresh" } else { "an hour old" }, date_header_name, decoy_text, size, v.what);
+                    // the body is large: keep the replay small
+                    v.case = json!({"bystander_date": {"carrier": format!("{:?}", carrier), "own_fresh": own_fresh, "header": date_header_name, "decoy_offset_s": decoy_off, "body_bytes": size}});
+                }
+            }
+            if !j.unspecified && j.reference.accepted() != own_fresh {
+                crate::core::machinery_error(&format!("C04 (4): reference verdict {:?} for own_fresh={}", j.reference.error, own_fresh));
+            }
+            st.state(&(own_fresh, j.reference.stage as u8, "bystander-date"));
+            st.nontrivial(&(carrier, own_fresh, date_header_name, decoy_off, size, "bystander-date"));
+        });
+        st = st.merge(part);
+    }
+
     Report {
         stats: st,
         rule: format!(
-            "{} server instants (plain, +1 ns, +999999999 ns, leap day, month/year/day boundaries) x {} offsets request-server (every whole second in [-1200 s, +1200 s]; +-1, 2, 1000 ns, 1 ms, 999999999 ns around both bounds; {} millisecond points within +-2 s of both bounds; +-1 h, 1 day, 1 year, 901 s; and the distances +-2^31 .. 2^36 s, 2 and 3 times 2^32 s, 2^63 and 2^64 ns, 2^31 and 2^32 ms, 2^53 us, each exactly and 1 / 899 / 900 / 901 s to either side) x {} renderings (basic/extended Z, +05:30, -08:00, +14:00, -12:00, 9/12-digit fractions with '.' and ',', fractions of 20, 49 and 309 digits, +-00:01, -09:30, +12:45, -0000) x carrier x {} lifetime decorations (none, or X-Amz-Expires = 60 .. 604800 s as a signed query parameter / signed header next to an Expires header) x session token present or not; every request freshly and correctly signed (scope date = UTC date of its instant). Oracle: Ok iff |t - now| <= 900 s at nanosecond resolution; otherwise SignatureDoesNotMatch/403 with an empty provider log; (2) every sequence of 1..2 (thorough 3) operations {{prevalidate, validate_signature, validate_signature on a clone}} x 3 configurations (the request's own scope, another service, a 5-minute window) x 5 server clocks (0, +900, +901, -901, +960 s) on one authenticator object built through the unstable API from a valid request, on both carriers, each operation judged alone; (3) every ordered pair of requests validated one after the other on one thread whose date texts share the wall-clock digits (basic / extended) and a fraction of 0, 9, 21 or 40 zero digits ('.' or ',') and differ in the zone designator (Z, +00:00, +05:00, -05:00, +0010, -00:14: instants up to five hours apart), the second judged as if alone. states = (inside, side, stage)",
+            "{} server instants (plain, +1 ns, +999999999 ns, leap day, month/year/day boundaries) x {} offsets request-server (every whole second in [-1200 s, +1200 s]; +-1, 2, 1000 ns, 1 ms, 999999999 ns around both bounds; {} millisecond points within +-2 s of both bounds; +-1 h, 1 day, 1 year, 901 s; and the distances +-2^31 .. 2^36 s, 2 and 3 times 2^32 s, 2^63 and 2^64 ns, 2^31 and 2^32 ms, 2^53 us, each exactly and 1 / 899 / 900 / 901 s to either side) x {} renderings (basic/extended Z, +05:30, -08:00, +14:00, -12:00, 9/12-digit fractions with '.' and ',', fractions of 20, 49 and 309 digits, +-00:01, -09:30, +12:45, -0000) x carrier x {} lifetime decorations (none, or X-Amz-Expires = 60 .. 604800 s as a signed query parameter / signed header next to an Expires header) x session token present or not; every request freshly and correctly signed (scope date = UTC date of its instant). Oracle: Ok iff |t - now| <= 900 s at nanosecond resolution; otherwise SignatureDoesNotMatch/403 with an empty provider log; (2) every sequence of 1..2 (thorough 3) operations {{prevalidate, validate_signature, validate_signature on a clone}} x 3 configurations (the request's own scope, another service, a 5-minute window) x 5 server clocks (0, +900, +901, -901, +960 s) on one authenticator object built through the unstable API from a valid request, on both carriers, each operation judged alone; (3) every ordered pair of requests validated one after the other on one thread whose date texts share the wall-clock digits (basic / extended) and a fraction of 0, 9, 21 or 40 zero digits ('.' or ',') and differ in the zone designator (Z, +00:00, +05:00, -05:00, +0010, -00:14: instants up to five hours apart), the second judged as if alone; (4) fresh (accepted) and hour-old (refused) requests with a date input of the other carrier as an unsigned bystander (X-Amz-Date / Date header next to query authentication, X-Amz-Date parameter next to header authentication; a day old, a day ahead, fresh) x bodies of 0, 1 MiB + 1, 8 MiB + 1, 16 MiB + 1 (thorough 64 MiB + 1) bytes. states = (inside, side, stage)",
             n_serv, n_off, if thorough { "all" } else { "every 25th of the" }, n_rend, n_life
         ),
         bounds: json!({"servers": n_serv, "offsets": n_off, "renderings": n_rend}),
